@@ -7,6 +7,7 @@ pub mod alloc;
 pub mod core;
 pub mod enumr;
 pub mod model;
+pub mod mutate;
 pub mod sched;
 pub mod seq;
 pub mod util;
